@@ -19,7 +19,9 @@ def gen(ctx):
     cs += runs.generate(ctx, "pvi", n, gammas=[F(1, 2), F(1, 4)], ks=[9], clear=False)
     cs += runs.generate(ctx, "pvi", n, gammas=[F(1, 2)], family="det", ks=[20], clear=False)
     # history clearing on, several calls
-    cs += runs.generate(ctx, "pvi", n, gammas=[F(1, 2), F(1)], ks=[3, 4], clear=True)
+    cs += runs.generate(ctx, "pvi", n, gammas=[F(1, 2), F(1)], ks=[9], clear=True)
+    # several calls with clearing on, where no call but the last converges (solve() after a cleared history is C08's finding)
+    cs += runs.generate(ctx, "pvi", max(1, n // 2), gammas=[F(1, 2), F(1)], ks=[2, 5], clear=True, accept=lambda c, r: not r[0]["converged"])
     return cs
 
 
